@@ -35,6 +35,7 @@ package prefix
 //@   requires rm != nil && t.TagObfuscator != nil
 //@   ensures @C02: result1 == nil ==> (exists s string :: s in validRegs(rm, originalDst) && result0 == validRegs(rm, originalDst)[s])
 //@   ensures @C02: result1 != nil ==> result0 == nil
+//@   ensures @C11: result1 == nil ==> result0 != nil
 // C04 (recognition with several station keys): the tag is tried under EVERY private key of the station - if any of
 // them reveals an identifier registered (valid) for this phantom, a registration is returned
 //@   ensures @C04: (exists i int :: 0 <= i && i < len(t.Privkeys) && revealOK(t.TagObfuscator, obfuscatedID, t.Privkeys[i]) && revealedTag(t.TagObfuscator, obfuscatedID, t.Privkeys[i]) in validRegs(rm, originalDst)) ==> result1 == nil
@@ -69,6 +70,9 @@ package prefix
 //@   ensures @C04: result1 == transports.ErrTryAgain && old(len(bufStr(data))) > 0 ==> (exists k PrefixID :: k in t.SupportedPrefixes && lacksBytes(t.SupportedPrefixes[k].MinLen, t.SupportedPrefixes[k].Offset, t.SupportedPrefixes[k].MaxLen, old(len(bufStr(data)))))
 // C03: the connection is not touched (no write, close, read, deadline change): the frame is the buffer only
 //@   assigns bufStr(data), obj(data)
+// C11: whatever registration the look-up returns (absent parameters, parameters without a prefix id), no nil
+// dereference, index or slice expression can fail
+//@   checks safety
 // C11 "first-flight bytes arriving on phantom connections ... never panics": every slice of the received bytes is in range
 //@   ensures @C11: true
 //@   checks bounds
@@ -99,3 +103,17 @@ package prefix
 //@   atcall ConjureHMAC before: assert @C01: arg1 == "PrefixTransportHMACString" && arg0 == sharedSecret
 //@   atcall ConjureHMAC after: snap tag := res
 //@   ensures @C01: result == nil && defined(tag) && t.connectTag == tag
+
+// ---------------- C01: destination port (prefix) ----------------
+// With randomisation the port IS the seeded draw over this transport's range, unmodified; without it the station uses
+// the default port of the registered prefix. (clients older than version 3 cannot use this transport)
+//@ func (t Transport) GetDstPort(libVersion uint, seed []byte, params any) (uint16, error)
+//@   atcall PortSelectorRange before: assert @C01: arg0 == portRangeMin && arg1 == portRangeMax && arg2 == seed && libVersion >= 3
+//@   atcall PortSelectorRange after: snap sel := res0
+//@   atcall PortSelectorRange after: snap selErr := res1
+//@   ensures @C01: libVersion < 3 ==> result1 != nil
+//@   ensures @C01: defined(sel) ==> result0 == sel && result1 == selErr
+//@   let pp := unboxptr(params, *pb.PrefixTransportParams)
+//@   ensures @C01: result1 == nil && typeis(params, *pb.PrefixTransportParams) && pp != nil && pp.RandomizeDstPort != nil && *pp.RandomizeDstPort ==> defined(sel)
+// (p is the function's own look-up of the registered prefix id in the table of supported prefixes)
+//@   ensures @C01: result1 == nil && !defined(sel) ==> defined(p) && result0 == p.DefaultDstPort
